@@ -311,7 +311,7 @@ def generate(repo):
 
         # ---------------------------------------------------------------- fit
         f = Fn(tree, 'fit')
-        n, m = f.one(r'if (nn < .+):', ast.If)
+        n, m = f.one(r'if (nn [<>=!]+ .+):', ast.If)
         if not re.fullmatch(r'return \(-2, yfit\)', f.head(n.body[-1])):
             raise Unrecognised('fit: nn test does not return -2')
         d('bs_fit_too_few', '(nn nord : nat) : bool', compare(expr(m.group(1)), {'nn': 'nn', 'self.nord': 'nord'}, 'nat'), n)
@@ -438,6 +438,73 @@ def generate(repo):
         args = [ast.unparse(a) for a in call.args] + ['%s=%s' % (k.arg, ast.unparse(k.value)) for k in call.keywords]
         d('bs_iter_reject_args', ': list string', '[' + '; '.join('"%s"' % a for a in args) + ']', n)
         f.one(r'inmask = maskwork')
+        # ---- the guards of iterfit (round 5).  An early return is an `if` whose body ENDS with the un-sort assignment and
+        # `return (sset, outmask)`.  Exactly two exist: "too few good points" (a count compared with sset.nord; the count is
+        # `maskwork.sum()` written inline or hoisted into a local assigned once from it) and "the fit failed" (error == -2).
+        def is_early(x):
+            return (isinstance(x, ast.If) and len(x.body) >= 2 and f.head(x.body[-1]) == 'return (sset, outmask)'
+                    and f.head(x.body[-2]) == 'outmask[xsort] = maskwork')
+        early = [x for x in f.stmts if is_early(x)]
+        few = [x for x in early if 'sset.nord' in ast.unparse(x.test)]
+        fail = [x for x in early if 'error' in ast.unparse(x.test)]
+        if len(early) != 2 or len(few) != 1 or len(fail) != 1:
+            raise Unrecognised('iterfit early returns')
+        few, fail = few[0], fail[0]
+        env = {'maskwork.sum()': 'ngood', 'sset.nord': 'nord'}
+        for x in f.stmts:
+            if isinstance(x, ast.Assign) and len(x.targets) == 1 and isinstance(x.targets[0], ast.Name) \
+                    and ast.unparse(x.value) == 'maskwork.sum()':
+                nm = x.targets[0].id
+                if sum(1 for y in f.stmts if isinstance(y, (ast.Assign, ast.AugAssign)) and nm in
+                       [ast.unparse(t) for t in (y.targets if isinstance(y, ast.Assign) else [y.target])]) != 1:
+                    raise Unrecognised('good-point count %s assigned more than once' % nm)
+                env[nm] = 'ngood'
+        if few.orelse:
+            raise Unrecognised('too-few-points guard has an else branch')
+        d('bs_iter_too_few', '(ngood nord : nat) : bool', compare(few.test, env, 'nat'), few)
+        # no fit, no rejection pass and no other statement that changes the mask may sit inside that branch
+        inner = [f.head(x) for x in few.body]
+        if not all(h.startswith('warn(') or h in ('outmask[xsort] = maskwork', 'return (sset, outmask)') for h in inner):
+            raise Unrecognised('too-few-points branch does more than warn / un-sort / return')
+        # ... and it is evaluated after the spline set has been built from the good points only
+        n, m = f.one(r'sset = bspline\((.+), \*\*kwargs\)')
+        d('bs_iter_knots_from', ': string', '"%s"' % m.group(1), n)
+        d('bs_iter_abort', '(error : Z) : bool', compare(fail.test, {'error': 'error'}, 'Z') + '%Z', fail)
+        n, m = f.one(r'if (.+) or not sset\.mask\.any\(\):', ast.If)
+        d('bs_iter_give_up', '(ngood : nat) (anybk : bool) : bool',
+          '%s || negb anybk' % compare(expr(m.group(1)), env, 'nat'), n)
+        if [f.head(b) for b in n.body] != ['sset.coeff = 0', 'iiter = maxiter + 1']:
+            raise Unrecognised('give-up branch')
+        # djs_reject is called exactly when the fit reported success
+        rej = [x for x in f.stmts if isinstance(x, ast.If) and any(f.head(b).startswith('maskwork, qdone = djs_reject(') for b in x.body)]
+        if len(rej) != 1:
+            raise Unrecognised('branch holding the djs_reject call')
+        d('bs_iter_reject_when', '(error : Z) : bool', compare(rej[0].test, {'error': 'error'}, 'Z') + '%Z', rej[0])
+        n, m = f.one(r'if not maskwork\.any\(\):', ast.If)
+        if not f.head(n.body[0]).startswith('raise ValueError('):
+            raise Unrecognised('no-valid-data branch')
+
+        # ---------------------------------------------------------------- value: masked-breakpoint gaps (round 5)
+        f = Fn(tree, 'value')
+        n, m = f.one(r'hmm = \(np\.diff\(goodbk\) (.+)\)\.nonzero\(\)\[0\]')
+        d('bs_value_gap_test', '(a b : nat) : bool', compare(expr('d ' + m.group(1)), {'d': '(b - a)'}, 'nat'), n)
+        n, m = f.one(r'inside = \((x .+ self\.breakpoints\[goodbk\[hmm\[jj\]\]\])\) & \((x .+ self\.breakpoints\[(goodbk\[hmm\[jj\] \+ 1\] .+)\])\)')
+        hi_idx = m.group(3)
+        d('bs_value_gap_inside', '(x lo hi : Q) : bool', '%s && %s' % (
+            compare(expr(m.group(1)), {'x': 'x', 'self.breakpoints[goodbk[hmm[jj]]]': 'lo'}, 'Q'),
+            compare(expr(m.group(2)), {'x': 'x', 'self.breakpoints[%s]' % hi_idx: 'hi'}, 'Q')), n)
+        d('bs_value_gap_hi_index', '(b : nat) : nat', nat(expr(hi_idx), {'goodbk[hmm[jj] + 1]': 'b'}), n)
+        f.one(r'mask\[inside\] = False')
+        f.one(r'goodbk = self\.mask\.nonzero\(\)\[0\]')
+
+        # ---------------------------------------------------------------- pydl.uniq as used by action(): neighbours compared with !=
+        ut = ast.parse(open(os.path.join(repo, 'pydl', 'uniq.py')).read())
+        f = Fn(ut, 'uniq')
+        n, m = f.one(r'indicies = \((q .+ roll\(q, (-?\d+)\))\)\.nonzero\(\)\[0\]')
+        d('bs_uniq_differs', '(a b : Z) : bool', compare(expr(m.group(1)), {'q': 'a', 'roll(q, %s)' % m.group(2): 'b'}, 'Z') + '%Z', n)
+        d('bs_uniq_shift', ': Z', '(%s)%%Z' % m.group(2), n)
+        f.one(r'q = x\[index\]')
+        n, m = f.one(r'return index\[indicies\]')
     except (Unrecognised, SyntaxError, OSError, KeyError, ValueError, IndexError, AttributeError) as e:
         info['error'] = '%s: %s' % (type(e).__name__, e)
         return None, info
@@ -473,14 +540,16 @@ def regenerate(C):
         info['changed'] = C.write_if_changed(os.path.join(C.VERIF, rel), text + '\n')
     else:
         import subprocess
-        committed = subprocess.run(['git', '-C', C.VERIF, 'cat-file', '-e', 'HEAD:' + rel],
-                                   stdout=subprocess.DEVNULL, stderr=subprocess.DEVNULL).returncode == 0
-        if committed:
+        # the fallback is the newer of (a) the committed Generated/BSpline.v and (b) the baseline kept next to the translator
+        # (refreshed whenever the translator learns new pieces; the committed file lags behind until the next commit)
+        base_path = os.path.join(os.path.dirname(os.path.abspath(__file__)), 'c08_baseline.v')
+        base = open(base_path).read() if os.path.exists(base_path) else ''
+        show = subprocess.run(['git', '-C', C.VERIF, 'show', 'HEAD:' + rel], stdout=subprocess.PIPE, stderr=subprocess.DEVNULL, text=True)
+        head = show.stdout if show.returncode == 0 else ''
+        if head and head.count('\nDefinition bs_') >= base.count('\nDefinition bs_'):
             info['restored_baseline'] = C.restore_generated(rel)
         else:
-            # Generated/BSpline.v is not committed yet: use the baseline kept next to the translator
-            base = os.path.join(os.path.dirname(os.path.abspath(__file__)), 'c08_baseline.v')
-            info['restored_baseline'] = C.write_if_changed(os.path.join(C.VERIF, rel), open(base).read())
+            info['restored_baseline'] = C.write_if_changed(os.path.join(C.VERIF, rel), base)
             info['baseline'] = 'translate/c08_baseline.v'
         info['note'] = ('bspline.py not recognised by translate/c08.py: the committed Generated/BSpline.v is used; the '
                         'correspondence run alone ties model to code')
